@@ -49,7 +49,20 @@ def snapshot(dicts):
             fns[k] = fn_shape(raw)
     for k in dup: fns.pop(k, None)
     adts = {engine.norm(a["path"]): adt_shape(a) for d in dicts for a in d["adts"]}
-    return {"fns": {k: list(v) for k, v in fns.items() if "{closure" not in k}, "adts": adts}
+    # direct callers of every local function (closures count for their parent): when a helper disappears (inlined by hand into its
+    # callers) the callers inherit the helper's entry in the who-may-call tables
+    callers = {}
+    local = set(fns) | dup
+    for d in dicts:
+        for raw in d["fns"]:
+            k = engine.norm(raw["id"]).split("::{closure")[0]
+            for b in raw["mir"]["blocks"]:
+                t = b["tm"]
+                if t["t"] in ("call", "tailcall") and "fn" in t["f"]:
+                    for cid in (t["f"]["fn"].get("r"), t["f"]["fn"].get("p")):
+                        c = engine.norm(cid) if cid else None
+                        if c in local and c != k: callers.setdefault(c, set()).add(k)
+    return {"fns": {k: list(v) for k, v in fns.items() if "{closure" not in k}, "adts": adts, "callers": {k: sorted(v) for k, v in callers.items()}}
 
 def _replace_strings(x, pairs):
     if isinstance(x, dict):
